@@ -257,6 +257,12 @@ func c11SeqA(t *testing.T, rep *vfReport, r *vfRng, n int) (ops, out []string) {
 			}
 			emit(fmt.Sprintf("read %d %d %d", j, clk, nr), res)
 		case k < 12:
+			if !hold && r.Bool() { // what EnsureVerify/Verify do; only when it cannot block
+				s.mrsw.BeginReadBlocking()
+				aux++
+				emit("auxb+", "ok")
+				break
+			}
 			if err := s.mrsw.BeginRead(); err != nil {
 				emit("aux+", "conflict")
 			} else {
